@@ -99,3 +99,140 @@ pub fn find_case(ctx: &Ctx, t: &[&str]) -> String {
         Ok(Ok(Some(s))) => s,
     }
 }
+
+// ------------------------------------------------------------------------------------------------ HSWEEP (C09, C11)
+
+use multiboot2_header as h;
+use std::fmt::Write;
+
+macro_rules! hfld {
+    ($out:expr, $name:expr, $e:expr) => {{
+        match guarded(|| $e) {
+            Ok(v) => write!($out, "{}={},", $name, v).unwrap(),
+            Err(()) => write!($out, "{}=P,", $name).unwrap(),
+        }
+    }};
+}
+
+fn hgetter<'a, T: ?Sized + 'a>(out: &mut String, name: &str, base: *const u8, g: impl FnOnce() -> Option<&'a T>, body: impl FnOnce(&mut String, &'a T)) {
+    write!(out, "{}=", name).unwrap();
+    match guarded(g) {
+        Err(()) => out.push('P'),
+        Ok(None) => out.push('-'),
+        Ok(Some(t)) => {
+            write!(out, "@{}:{}{{", off(t as *const T as *const u8, base), std::mem::size_of_val(t)).unwrap();
+            body(out, t);
+            out.push('}');
+        }
+    }
+    out.push(';');
+}
+
+macro_rules! common {
+    ($o:expr, $t:expr) => {{
+        hfld!($o, "typ", $t.typ() as u16);
+        hfld!($o, "flags", $t.flags() as u16);
+        hfld!($o, "size", $t.size());
+    }};
+}
+
+/// HSWEEP <hex region>: load the header and call every safe accessor / getter / iterator / Debug
+pub fn hsweep_case(ctx: &Ctx, t: &[&str]) -> String {
+    let bytes = unhex(t[1]);
+    let p = ctx.arena.place_end(&bytes, 0);
+    let mut out = String::new();
+    let hd = match guarded(|| unsafe { Multiboot2Header::load(p.cast()) }) {
+        Err(()) => return "ld=panic;".into(),
+        Ok(Err(e)) => return format!("ld={};", hload_err(e)),
+        Ok(Ok(hd)) => hd,
+    };
+    write!(out, "ld=ok({}:{}:{}:{}:{});", hd.header_magic(), hd.arch() as u32, hd.length(), hd.checksum(), hd.verify_checksum()).unwrap();
+    out.push_str("tags=");
+    {
+        let mut it = hd.iter();
+        loop {
+            match guarded(|| it.next()) {
+                Err(()) => {
+                    out.push_str("|panic");
+                    break;
+                }
+                Ok(None) => {
+                    out.push_str("|done");
+                    break;
+                }
+                Ok(Some(tag)) => {
+                    let tp = tag as *const _ as *const u8;
+                    let typ = unsafe { (tp as *const u16).read() };
+                    let fl = unsafe { (tp as *const u16).add(1).read() };
+                    write!(out, "{}:{}:{}:{}:{},", off(tp, p), typ, fl, tag.header().size(), tag.payload().len()).unwrap();
+                }
+            }
+        }
+    }
+    out.push(';');
+    hgetter(&mut out, "inforeq", p, || hd.information_request_tag(), |o, t| {
+        common!(o, t);
+        let r = t.requests();
+        let v: Vec<String> = r.iter().map(|x| format!("{}", u32::from(*x))).collect();
+        write!(o, "requests=[{}:{}|{}],", off(r.as_ptr() as *const u8, p), r.len(), v.join(":")).unwrap();
+        hfld!(o, "debug", format!("{:?}", t).len() > 0);
+    });
+    hgetter(&mut out, "address", p, || hd.address_tag(), |o, t| {
+        common!(o, t);
+        hfld!(o, "header_addr", t.header_addr());
+        hfld!(o, "load_addr", t.load_addr());
+        hfld!(o, "load_end_addr", t.load_end_addr());
+        hfld!(o, "bss_end_addr", t.bss_end_addr());
+        hfld!(o, "debug", format!("{:?}", t).len() > 0);
+    });
+    hgetter(&mut out, "entry", p, || hd.entry_address_tag(), |o, t| {
+        common!(o, t);
+        hfld!(o, "entry_addr", t.entry_addr());
+        hfld!(o, "debug", format!("{:?}", t).len() > 0);
+    });
+    hgetter(&mut out, "efi32", p, || hd.entry_address_efi32_tag(), |o, t| {
+        common!(o, t);
+        hfld!(o, "entry_addr", t.entry_addr());
+        hfld!(o, "debug", format!("{:?}", t).len() > 0);
+    });
+    hgetter(&mut out, "efi64", p, || hd.entry_address_efi64_tag(), |o, t| {
+        common!(o, t);
+        hfld!(o, "entry_addr", t.entry_addr());
+        hfld!(o, "debug", format!("{:?}", t).len() > 0);
+    });
+    hgetter(&mut out, "console", p, || hd.console_flags_tag(), |o, t| {
+        common!(o, t);
+        hfld!(o, "console_flags", t.console_flags() as u32);
+        hfld!(o, "debug", format!("{:?}", t).len() > 0);
+    });
+    hgetter(&mut out, "fb", p, || hd.framebuffer_tag(), |o, t| {
+        common!(o, t);
+        hfld!(o, "width", t.width());
+        hfld!(o, "height", t.height());
+        hfld!(o, "depth", t.depth());
+        hfld!(o, "debug", format!("{:?}", t).len() > 0);
+    });
+    hgetter(&mut out, "modalign", p, || hd.module_align_tag(), |o, t| {
+        common!(o, t);
+        hfld!(o, "debug", format!("{:?}", t).len() > 0);
+    });
+    hgetter(&mut out, "efibs", p, || hd.efi_boot_services_tag(), |o, t| {
+        common!(o, t);
+        hfld!(o, "debug", format!("{:?}", t).len() > 0);
+    });
+    hgetter(&mut out, "reloc", p, || hd.relocatable_tag(), |o, t| {
+        common!(o, t);
+        hfld!(o, "min_addr", t.min_addr());
+        hfld!(o, "max_addr", t.max_addr());
+        hfld!(o, "align", t.align());
+        hfld!(o, "preference", t.preference() as u32);
+        hfld!(o, "debug", format!("{:?}", t).len() > 0);
+    });
+    out.push_str("debug=");
+    match guarded(|| format!("{:?}", hd).len()) {
+        Err(()) => out.push('P'),
+        Ok(_) => out.push_str("ok"),
+    }
+    out.push(';');
+    out
+}
